@@ -9,6 +9,7 @@ C_STRICT = Config('c', iro='strict')
 PY_STRICT = Config('py', iro='strict')
 C_LEGACY = Config('c', iro='legacy')
 C_ASAN = Config('c', asan=True)
+C_VALGRIND = Config('c', asan='valgrind')
 PY_LEGACY = Config('py', iro='legacy')
 
 STD = [(C, 9), (PY, 5), (C_H1, 1), (PY_H7, 1)]
@@ -328,7 +329,9 @@ _p('C11', 'fault_enumeration',
    [Part('race', {'part': 'reenter'}, configs=[(C, 1), (PY, 1)], kind='enum', name='race/reenter-product', timeout=180.0),
     Part('race', {'part': 'threads'}, configs=[(C, 5), (PY, 3), (C_H1, 1)], quick=9000, thorough=600000, name='race/threads', timeout=60.0, batch=50),
     Part('race', {'part': 'reenter', 'asan': True}, configs=[(C_ASAN, 1)], kind='enum', name='race/reenter-product/asan', timeout=300.0),
-    Part('race', {'part': 'threads', 'asan': True}, configs=[(C_ASAN, 1)], quick=1500, thorough=120000, name='race/threads/asan', timeout=120.0, batch=25)],
+    Part('race', {'part': 'threads', 'asan': True}, configs=[(C_ASAN, 1)], quick=1500, thorough=120000, name='race/threads/asan', timeout=120.0, batch=25),
+    Part('race', {'part': 'reenter', 'asan': True, 'stride': 4, 'block': 70}, configs=[(C_VALGRIND, 1)], kind='enum', name='race/reenter-product/memcheck', timeout=600.0),
+    Part('race', {'part': 'threads', 'asan': True}, configs=[(C_VALGRIND, 1)], quick=100, thorough=20000, name='race/threads/memcheck', timeout=300.0, batch=10)],
    rule='Part A (enumerated completely): one case = one lookup through one of the nine entry points on a two-level registry chain of either '
         'flavour, with one callback point armed (lazy required iterable, __providedBy__ descriptor, overridden _uncached_* before/after delegating, '
         'a required specification with a Python-level subscribe, _generation as a property of the base registry, an overridden changed(), the '
